@@ -202,6 +202,10 @@ func concMain(mode string, a args) {
 			}
 		}
 		var wg sync.WaitGroup
+		// parsers constructed concurrently are later combined into ONE grammar: every Memoize must have got its own identity
+		const fragsPer = 64
+		startAll := make(chan struct{})
+		frags := make([][]parsley.Parser, G)
 		conc := make([]map[string][]J, G)
 		bad := make([]map[string]bool, G)
 		for g := 0; g < G; g++ {
@@ -209,6 +213,10 @@ func concMain(mode string, a args) {
 			wg.Add(1)
 			go func(g int) {
 				defer wg.Done()
+				<-startAll // all goroutines construct at the same time
+				for i := 0; i < fragsPer; i++ {
+					frags[g] = append(frags[g], combinator.Memoize(terminal.Word("w", fmt.Sprintf("kw_%d_%d", g, i), g*1000+i)))
+				}
 				for it := 0; it < iters; it++ {
 					for _, w := range wls {
 						var obs []J
@@ -230,12 +238,36 @@ func concMain(mode string, a args) {
 				}
 			}(g)
 		}
+		close(startAll)
 		wg.Wait()
 		for g := 0; g < G; g++ {
 			for _, w := range wls {
 				o.put(J{"ev": "run", "g": g, "wl": w.name, "mode": "free", "sched": []int{}, "solo": solo[w.name], "conc": conc[g][w.name]})
 			}
 		}
+		var all []parsley.Parser
+		for g := 0; g < G; g++ {
+			all = append(all, frags[g]...)
+		}
+		kw := combinator.Sentence(combinator.Choice(all...))
+		want, got := []J{}, []J{}
+		for g := 0; g < G; g++ {
+			for i := 0; i < fragsPer; i++ {
+				in := fmt.Sprintf("kw_%d_%d", g, i)
+				ob := J{"in": in}
+				if m := safely(func() {
+					f := text.NewFile("f", []byte(in))
+					ctx := parsley.NewContext(parsley.NewFileSet(f), text.NewReader(f))
+					v, err := parsley.Evaluate(ctx, kw)
+					ob["val"], ob["err"] = fmt.Sprintf("%v", v), fmt.Sprintf("%v", err)
+				}); m != "" {
+					ob["panic"] = m
+				}
+				got = append(got, ob)
+				want = append(want, J{"in": in, "val": fmt.Sprintf("%v", g*1000+i), "err": "<nil>"})
+			}
+		}
+		o.put(J{"ev": "run", "g": -1, "wl": "construct", "mode": "free", "sched": []int{}, "solo": want, "conc": got})
 	case "gated":
 		// deterministic interleavings of 2-3 parses of one shared, probed left-recursive grammar
 		p := gatedGrammar()
